@@ -72,8 +72,9 @@ fn play(cfg: &WorldCfg, sets: &[[AssetInfo; 2]], want_desc: bool, key: u64) -> C
     let model_addrs: BTreeSet<String> = fw.model.pairs.values().map(|m| m.addr.clone()).collect();
     let mut verdict = Verdict::Pass;
     let mut reference: Option<Vec<(String, [AssetInfo; 2])>> = None;
-    let mut limits: Vec<Option<u32>> = vec![None];
-    limits.extend((1..=40).map(Some));
+    // page size 1 first: its walk defines the listing order unambiguously (one entry per page)
+    let mut limits: Vec<Option<u32>> = vec![Some(1), None];
+    limits.extend((2..=40).map(Some));
     'l: for limit in limits {
         match walk(&fw, limit, n) {
             Err(m) => {
@@ -97,34 +98,44 @@ fn play(cfg: &WorldCfg, sets: &[[AssetInfo; 2]], want_desc: bool, key: u64) -> C
                     None => reference = Some(seq),
                     Some(r) => {
                         if r.iter().map(|(a, _)| a).collect::<Vec<_>>() != addrs {
-                            verdict = Verdict::Fail(format!("registry of {} pairs: walk with limit {:?} lists the pairs in a different order than the default walk", n, limit));
-                            break 'l;
+                            // not demanded by the statement (each walk is complete on its own): observed only
+                            classes.push("c:walks-disagree-on-order");
                         }
                     }
                 }
             }
         }
     }
-    // every registered pair as a cursor, in both asset orders: the remainder is exactly what follows it
+    // every registered pair as a continuation cursor, as the list returned it: the page must hold
+    // exactly the next entries of the listing (compared as a set), never the cursor itself or anything
+    // before it.  The cursor with its two assets reversed is probed too but only observed: the statement
+    // speaks of continuing after the pair *as returned*.
     if matches!(verdict, Verdict::Pass) {
         if let Some(r) = &reference {
             'c: for (i, (_, infos)) in r.iter().enumerate() {
                 for flip in [false, true] {
                     let cur = if flip { [infos[1].clone(), infos[0].clone()] } else { infos.clone() };
-                    for limit in [None, Some(30u32), Some(1)] {
+                    for limit in [None, Some(30u32), Some(1), Some(7)] {
                         let eff = limit.unwrap_or(10).min(30) as usize;
                         match fw.pairs_page(Some(cur.clone()), limit) {
                             Err(e) => {
-                                verdict = Verdict::Fail(format!("Pairs query with cursor {:?} failed: {}", cur, e));
-                                break 'c;
+                                if !flip {
+                                    verdict = Verdict::Fail(format!("Pairs query continuing after a returned pair {:?} failed: {}", cur, e));
+                                    break 'c;
+                                }
+                                classes.push("c:reversed-cursor-differs");
                             }
                             Ok(page) => {
-                                let want: Vec<&String> = r[i + 1..].iter().take(eff).map(|(a, _)| a).collect();
-                                let got: Vec<&String> = page.iter().map(|p| &p.contract_addr).collect();
-                                if want != got {
-                                    verdict = Verdict::Fail(format!(
-                                        "registry of {} pairs: continuing after entry {} ({} / {}) with limit {:?} returns {:?}, but the entries that follow it are {:?}", n, i, cur[0], cur[1], limit, got, want));
-                                    break 'c;
+                                let want: BTreeSet<&String> = r[i + 1..].iter().take(eff).map(|(a, _)| a).collect();
+                                let got: BTreeSet<&String> = page.iter().map(|p| &p.contract_addr).collect();
+                                if want != got || page.len() != got.len() {
+                                    if flip {
+                                        classes.push("c:reversed-cursor-differs");
+                                    } else {
+                                        verdict = Verdict::Fail(format!(
+                                            "registry of {} pairs: continuing after entry {} ({} / {}) with limit {:?} returns {:?}, but the entries that follow it are {:?}", n, i, cur[0], cur[1], limit, got, want));
+                                        break 'c;
+                                    }
                                 }
                             }
                         }
@@ -190,7 +201,7 @@ pub fn suites() -> Vec<Suite> {
         head_len: 140,
         op_len: 0,
         max_ops: 0,
-        quick_cases: 600,
+        quick_cases: 2_500,
         thorough_cases: 30_000,
         run,
         direct: Some(direct),
@@ -198,5 +209,5 @@ pub fn suites() -> Vec<Suite> {
     }]
 }
 
-pub const RULE: &str = "case = factory world (4-9 prefix-sharing native denoms incl. the concatenation-collision quadruple, 0-3 cw20 tokens) + a registry of 0 / 1-9 / 10 / 11-29 / 30 / 31-40 pairs created in generated order and asset order; for EVERY page size in {absent, 1..40} the list is walked continuing after the last pair returned: each page has exactly min(limit or 10, 30, remaining) entries, the walk ends, visits every registered pair exactly once, and all walks agree on the order; EVERY registered pair is then used as a cursor (both asset orders, limits absent / 30 / 1): the page must be exactly the entries that follow it; non-trivial = registry of >= 11 pairs (page sizes that do not divide the size are always among the 41 tried); distinct = hash of the tape; the page-size and cursor dimensions are enumerated exhaustively per registry";
+pub const RULE: &str = "case = factory world (4-9 prefix-sharing native denoms incl. the concatenation-collision quadruple, 0-3 cw20 tokens) + a registry of 0 / 1-9 / 10 / 11-29 / 30 / 31-40 pairs created in generated order and asset order; for EVERY page size in {absent, 1..40} the list is walked continuing after the last pair returned: each page has exactly min(limit or 10, 30, remaining) entries, the walk ends and visits every registered pair exactly once; EVERY registered pair is then used as a continuation cursor as the list returned it (limits absent / 30 / 1 / 7): the page must hold exactly the entries that follow it in the listing order (the order of the page-size-1 walk), compared as a set; cursors with the two assets reversed and the agreement of different walks on the order are probed but only observed; non-trivial = registry of >= 11 pairs (page sizes that do not divide the size are always among the 41 tried); distinct = hash of the tape; the page-size and cursor dimensions are enumerated exhaustively per registry";
 pub const ASSUMPTIONS: &[&str] = &["cw-multi-test chain model; token contract addresses are assigned sequentially (contract3..)"];
